@@ -11,7 +11,7 @@ from .. import planlib, refmodels, world
 from ..core import Discard, LibError, Violation, run_property
 from ..catalogue import mk_candles
 from ..subjects import ROUTES, build_route
-from ..util import snap_cores, sub_rng, tf_seconds
+from ..util import candle_core, snap_cores, sub_rng, tf_seconds
 
 ID = "C12"
 LEVEL = "exploration"
@@ -76,8 +76,14 @@ def plan(seed, subbatch):
         fired["lifespan_configured"] += 1
         if route == "hexital_member":
             route = "hexital_level"   # member managers derived from trimmed base candles: known finding C08
+    ctype = None
+    if not (mega or giant) and sub_rng(seed, "ctype").random() < 0.2:
+        # filling with a candlestick type selected: fill candles are flat at the previous candle's RAW close and
+        # the whole filled series is then converted, whatever the schedule
+        ctype = "HA"
+        fired["heikin_ashi_configured"] += 1
     return {"format": 1, "property": ID, "seed": seed, "subbatch": subbatch,
-            "config": {"route": route, "tf": tf, "base_s": base_s, "lifespan_s": lifespan,
+            "config": {"route": route, "tf": tf, "base_s": base_s, "lifespan_s": lifespan, "ctype": ctype,
                        "utc_offset_min": cfg.choice((None, None, None, None, 0, 60, 345))},
             "ops": [{"op": "new", "preload": pre}] + ops, "fired": dict(fired)}
 
@@ -98,6 +104,19 @@ def _execute(trace):
         tf, route = cfg["tf"], cfg["route"]
         tf_s = tf_seconds(tf)
         lifespan = cfg.get("lifespan_s")
+        ctype = cfg.get("ctype")
+
+        def cores(candles):
+            """(ts, o, h, l, c, v) per candle; with a candlestick type the RAW values (kept in clean_values)."""
+            if not ctype:
+                return snap_cores(candles)
+            out = []
+            for c in candles:
+                cv = c.clean_values or {}
+                t = candle_core(c)
+                out.append((t[0],) + tuple(cv.get(k, getattr(c, k)) for k in ("open", "high", "low", "close", "volume")))
+            return out
+
         delivered = []
         subject = manager = view = None
         twin = tmanager = tview = None
@@ -111,8 +130,8 @@ def _execute(trace):
                     rows = op.get("preload") or []
                     delivered.extend(rows)
                     span_n = (rows[-1][0] - rows[0][0]) // tf_s if rows else 0
-                    subject, manager, view = run.call(len(rows) + span_n, build_route, route, tf, rows, True, lifespan)
-                    twin, tmanager, tview = build_route(route, tf, rows, False, lifespan)
+                    subject, manager, view = run.call(len(rows) + span_n, build_route, route, tf, rows, True, lifespan, ctype)
+                    twin, tmanager, tview = build_route(route, tf, rows, False, lifespan, ctype)
                 elif subject is None:
                     continue
                 elif kind == "append":
@@ -134,7 +153,7 @@ def _execute(trace):
                     continue
             except LibError as e:
                 raise Violation("exception", route, e.site, {"error": repr(e.exc), "op": kind})
-            got = snap_cores(view())
+            got = cores(view())
             buckets = refmodels.resample(delivered, tf_s)
             want_rows, flags = refmodels.fill(buckets, tf_s)
             want = [tuple(r) for r in want_rows]
@@ -159,10 +178,20 @@ def _execute(trace):
                 raise Violation("fill-reference", route, what,
                                 {"index": j, "got": g, "want": w, "n_got": len(got), "n_want": len(want)})
             real = [g for g, f in zip(got, flags) if not f]
-            nofill = snap_cores(tview())
+            nofill = cores(tview())
             if real != nofill:
                 raise Violation("real-buckets-vs-nofill-twin", route, "differ",
                                 {"n_real": len(real), "n_twin": len(nofill)})
+            if ctype and lifespan is None and want:
+                # the series indicators see: the Heikin-Ashi recurrence over the filled raw series
+                shown = snap_cores(view())
+                ha = [tuple(r) for r in refmodels.heikin_ashi(want)]
+                if len(shown) == len(ha):
+                    for j, (a, b) in enumerate(zip(shown, ha)):
+                        if a[0] != b[0] or any(abs(x - y) > 1e-9 * max(1.0, abs(y)) for x, y in zip(a[1:5], b[1:5])):
+                            raise Violation("converted-filled-series", route, "inserted" if flags[j] else "real",
+                                            {"index": j, "got": a, "want": b})
+                run.stats["reach:heikin_ashi_filled_series_checked"] += 1
             ins = sum(flags)
             inserted_seen = max(inserted_seen, ins)
             run.state(kind, min(ins, 3), min(len(buckets), 3), flags[-2] if len(flags) > 1 else None)
